@@ -19,7 +19,7 @@ End Abstract.
 (* ---------- executable model ---------- *)
 Inductive sch :=
 | SRef (n : N)                                   (* $ref: "#/components/.../<name>" *)
-| SObj (props allof oneof anyof : list sch) (items addl : option sch).   (* inline / component schema *)
+| SObj (props allof oneof anyof : list sch) (items addl : option sch) (disc : bool).   (* inline / component schema; disc: has a discriminator *)
 
 Definition memN (x : N) (l : list N) : bool := existsb (N.eqb x) l.
 Definition inclN (a b : list N) : bool := forallb (fun x => memN x b) a.
@@ -31,15 +31,18 @@ Fixpoint dedupN (l : list N) : list N :=
 Definition fingerprint (vs : list sch) : list N :=
   dedupN (flat_map (fun v => match v with SRef n => [n] | _ => [] end) vs).
 
-(* build_union_fingerprints: scan schemas in name order, oneOf then anyOf, sets of >= 2 names; later inserts overwrite *)
+(* build_union_fingerprints: scan schemas in name order, oneOf then anyOf, sets of >= 2 names that cover every
+   variant, of schemas without a discriminator (fix 3a55828) (since fix: 'share a union type by its reference set only when every variant is a reference');
+   later inserts overwrite *)
 Definition fp_table := list (list N * N).
 Fixpoint build_fp_from (i : N) (ss : list sch) : fp_table :=
   match ss with
   | [] => []
   | s :: r =>
       let here := match s with
-                  | SObj _ _ o y _ _ =>
-                      flat_map (fun vs => let f := fingerprint vs in if Nat.leb 2 (length f) then [(f, i)] else []) [o; y]
+                  | SObj _ _ o y _ _ k =>
+                      flat_map (fun vs => let f := fingerprint vs in
+                                          if negb k && Nat.leb 2 (length f) && Nat.eqb (length f) (length vs) then [(f, i)] else []) [o; y]
                   | SRef _ => []
                   end in
       here ++ build_fp_from (N.succ i) r
@@ -58,14 +61,14 @@ Definition fp_match (t : fp_table) (vs : list sch) : list N :=
 Fixpoint cref (t : fp_table) (s : sch) : list N :=
   match s with
   | SRef n => [n]
-  | SObj p a o y i d =>
+  | SObj p a o y i d _ =>
       flat_map (cref t) p ++ flat_map (cref t) y ++ flat_map (cref t) o ++ flat_map (cref t) a
       ++ fp_match t o ++ fp_match t y
       ++ match i with Some x => cref t x | None => [] end
       ++ match d with Some x => cref t x | None => [] end
   end.
 Definition collect (t : fp_table) (s : sch) : list N :=
-  match s with SRef _ => [] | SObj _ _ _ _ _ _ => cref t s end.
+  match s with SRef _ => [] | SObj _ _ _ _ _ _ _ => cref t s end.
 
 Fixpoint deps_from (t : fp_table) (i : N) (ss : list sch) : list (N * N) :=
   match ss with
